@@ -105,6 +105,61 @@ func freshRoot(c *Check, a *Anchors, fb *FuncBody, e ast.Expr, depth int) (bool,
 				}
 			}
 		}
+		// a field of the receiver of a small unexported struct of the package (a resolver / visitor object): private when every
+		// literal of that struct in the package binds the field to call-private memory and the field is assigned nowhere else
+		if depth > 0 && isRecvOf(info, root, rv) {
+			if named := namedOf(rv.Type()); named != nil && !named.Obj().Exported() && named.Obj().Pkg() != nil && named.Obj().Pkg().Path() == root.Pkg.PkgPath {
+				field := ""
+				for x := ast.Unparen(e); ; {
+					sel, ok := x.(*ast.SelectorExpr)
+					if !ok {
+						break
+					}
+					if varOf(info, sel.X) == rv {
+						field = sel.Sel.Name
+						break
+					}
+					x = ast.Unparen(sel.X)
+				}
+				if field != "" {
+					lits, allFresh := 0, true
+					for _, cb := range c.P.BodiesIn(root.Pkg.PkgPath) {
+						cinfo := cb.Info()
+						inspectBody(cb.Body, func(nd ast.Node) bool {
+							switch y := nd.(type) {
+							case *ast.CompositeLit:
+								if tv, ok := cinfo.Types[y]; ok && namedOf(tv.Type) == named {
+									for _, el := range y.Elts {
+										if kv, ok := el.(*ast.KeyValueExpr); ok {
+											if id, ok := kv.Key.(*ast.Ident); ok && id.Name == field {
+												lits++
+												if ok, _ := freshRoot(c, a, cb, kv.Value, depth-1); !ok {
+													allFresh = false
+												}
+											}
+										} else {
+											allFresh = false // positional literal: not followed
+										}
+									}
+								}
+							case *ast.AssignStmt:
+								for _, l := range y.Lhs {
+									if sel, ok := ast.Unparen(l).(*ast.SelectorExpr); ok && sel.Sel.Name == field {
+										if s := cinfo.Selections[sel]; s != nil && s.Kind() == types.FieldVal && namedOf(s.Recv()) == named {
+											allFresh = false
+										}
+									}
+								}
+							}
+							return true
+						})
+					}
+					if lits > 0 && allFresh {
+						return true, fmt.Sprintf("field of the receiver that every one of %d literal(s) of %s binds to call-private memory", lits, named.Obj().Name())
+					}
+				}
+			}
+		}
 		return false, "rooted at parameter/receiver `" + rv.Name() + "`"
 	}
 	// several definitions: every one of them must be fresh
